@@ -21,7 +21,7 @@ ASSUMPTIONS = [
     "routes are symmetric and all agents share one default route (what the format can express)",
     "one file / one string (multi-file loading is string concatenation and is outside)",
 ]
-BOUNDS = {"quick": "constraints: structures pair, chain-3, unary, ternary (domain 2, one job with domain 3), int and str domains, single-value domain, optional intentional constraint, initial value absent/first/last, with 2 plain agents; agents: 2 agents with every combination of capacity / symmetric route / default route / default and specific hosting cost",
+BOUNDS = {"quick": "a hand-written agents section (global / per-agent default and specific hosting costs in both key orders, default and specific routes) loaded and compared with what the text states; constraints: structures pair, chain-3, unary, ternary (domain 2, one job with domain 3), int and str domains, single-value domain, optional intentional constraint, initial value absent/first/last, with 2 plain agents; agents: 2 agents with every combination of capacity / symmetric route / default route / default and specific hosting cost",
           "thorough": "quick + triangle, 3 agents, pair with domain 3 and str values"}
 OUTSIDE = "the YAML text layer for all inputs, several files, cost-function variables, external 'source:' constraints, distribution hints"
 CAP_S = {"quick": 900, "thorough": 5400}
@@ -70,13 +70,91 @@ def jobs(tier):
     out.append({"name": "pair-dom3", "spec": spec("pair", "min", dom={"x": 3, "y": 2}), "agents": 2})
     out.append({"name": "single-value-domain", "spec": spec("pair", "min", dom={"x": 1, "y": 2}), "agents": 1})
     out.append({"name": "agents-only", "spec": spec("unary", "min"), "agents": 2, "agents_focus": True})
+    # loading of a hand-written agents section: global / per-agent default hosting costs, specific costs, key order,
+    # default route and symmetric routes (forms that dcop_yaml never emits itself)
+    out.append({"name": "handwritten-agents", "handwritten": True})
     if tier == "thorough":
         out.append({"name": "triangle-int", "spec": spec("triangle", "min"), "agents": 3})
         out.append({"name": "pair-dom3-str", "spec": spec("pair", "min", dom=3, domain_kind="str"), "agents": 2})
     return out
 
 
+def run_handwritten(eng, p):
+    """A yaml text written by the harness (not by dcop_yaml) is loaded; the agents must have the costs the text states:
+    hosting cost = specific cost of the computation, else the agent's own default, else the global default, else 0;
+    route = the specific (symmetric) route, else the default route (1 when absent); route to itself 0."""
+    begin(eng)
+    import pydcop.dcop.yamldcop as yd
+    glob = eng.pick([None, 0, 5], "global_default")
+    glob_first = eng.pick([True, False], "global_default_first") if glob is not None else True
+    entries = {}
+    for a in ("a1", "a2"):
+        kind = eng.pick(["absent", "computations", "default", "both"], "entry_" + a)
+        e = {}
+        if kind in ("default", "both"):
+            e["default"] = eng.pick([0, 7], "agent_default_" + a)
+        if kind in ("computations", "both"):
+            e["computations"] = {"v1": eng.pick([0, 3], "specific_" + a)}
+        if kind != "absent":
+            entries[a] = e
+    droute = eng.pick([None, 0, 4], "default_route")
+    specific_route = eng.pick([None, 0, 9], "route_a1_a2")
+    route_owner = eng.pick(["a1", "a2"], "route_written_under") if specific_route is not None else "a1"
+    lines = ["name: t", "objective: min", "domains:", "  d: {values: [0, 1]}", "variables:", "  v1: {domain: d}",
+             "  v2: {domain: d}", "constraints:", "  c1: {type: intention, function: v1 + v2}", "agents: [a1, a2, a3]"]
+    if glob is not None or entries:
+        lines.append("hosting_costs:")
+        if glob is not None and glob_first:
+            lines.append("  default: %d" % glob)
+        for a, e in entries.items():
+            lines.append("  %s:" % a)
+            if "default" in e:
+                lines.append("    default: %d" % e["default"])
+            if "computations" in e:
+                lines.append("    computations: {v1: %d}" % e["computations"]["v1"])
+        if glob is not None and not glob_first:
+            lines.append("  default: %d" % glob)
+    if droute is not None or specific_route is not None:
+        lines.append("routes:")
+        if droute is not None:
+            lines.append("  default: %d" % droute)
+        if specific_route is not None:
+            other = "a2" if route_owner == "a1" else "a1"
+            lines.append("  %s: {%s: %d}" % (route_owner, other, specific_route))
+    text = "\n".join(lines) + "\n"
+    eng.notes["outcome"] = {"yaml": text}
+    try:
+        dcop = yd.load_dcop(text)
+    except Exception as e:
+        eng.fail("loading the hand-written yaml raised %s: %s" % (type(e).__name__, e), detail=text + traceback.format_exc(limit=-3))
+        return
+    bad = []
+    for a in ("a1", "a2", "a3"):
+        ag = dcop.agents[a]
+        e = entries.get(a, {})
+        for comp in ("v1", "v2", "c1"):
+            exp = e.get("computations", {}).get(comp)
+            if exp is None:
+                exp = e.get("default")
+            if exp is None:
+                exp = glob if glob is not None else 0
+            if ag.hosting_cost(comp) != exp:
+                bad.append("hosting_cost(%s, %s) = %r, the text says %r" % (a, comp, ag.hosting_cost(comp), exp))
+        for b in ("a1", "a2", "a3"):
+            if b == a:
+                exp = 0
+            elif specific_route is not None and {a, b} == {"a1", "a2"}:
+                exp = specific_route
+            else:
+                exp = droute if droute is not None else 1
+            if ag.route(b) != exp:
+                bad.append("route(%s, %s) = %r, the text says %r" % (a, b, ag.route(b), exp))
+    eng.prove(not bad, "agents loaded from a hand-written yaml do not have the costs the text states", detail=str(bad[:4]) + text)
+
+
 def run(eng, p):
+    if p.get("handwritten"):
+        return run_handwritten(eng, p)
     begin(eng)
     import pydcop.dcop.yamldcop as yd
     from pydcop.dcop.objects import AgentDef
